@@ -11,14 +11,12 @@ package c37
 
 import (
 	"fmt"
-	"regexp"
 	"strings"
 	"testing"
-	"unicode/utf8"
 
-	"github.com/lmorg/murex/utils/parser"
 	"pgregory.net/rapid"
 	"verif/harness/core"
+	"verif/harness/props/c37/oracle"
 )
 
 func TestMain(m *testing.M) { core.Main(m, "C37") }
@@ -89,84 +87,21 @@ var asciiPrintable = func() []rune {
 
 func gen(t *rapid.T) Case { return Case{Text: genText(t)} }
 
-// normalise maps any string into the domain: valid UTF-8 (what a []rune
-// typed on a terminal converts to), no ESC, at most 300 runes.
-func normalise(s string) string {
-	if !utf8.ValidString(s) {
-		s = string([]rune(s))
-	}
-	if strings.ContainsRune(s, 0x1b) {
-		s = strings.ReplaceAll(s, "\x1b", "")
-	}
-	if utf8.RuneCountInString(s) > 300 {
-		s = string([]rune(s)[:300])
-	}
-	return s
-}
-
-// ---------------------------------------------------------------------------
-// oracle
-
-var rxSGR = regexp.MustCompile("\x1b\\[[0-9;]*m")
-
-func highlight(text string) (hl string, panicked any) {
-	defer func() {
-		if r := recover(); r != nil {
-			panicked = r
-		}
-	}()
-	_, hl = parser.Parse([]rune(text), 0)
-	return
-}
+func normalise(s string) string { return oracle.Normalise(s) }
 
 func check(c Case) *core.Violation {
-	text := normalise(c.Text)
-	hl, p := highlight(text)
-	if p != nil {
-		return core.Violf("panic", "parser.Parse(%q, 0) panicked: %v", text, p)
-	}
-	got := rxSGR.ReplaceAllString(hl, "")
-	if got != text {
-		return core.Violf("text-changed", "input       %q\nhighlighted %q\nstripped    %q\nfirst difference at byte %d", text, hl, got, firstDiff(text, got))
+	if kind, msg := oracle.Check(c.Text); kind != "" {
+		return core.Violf(kind, "%s", msg)
 	}
 	return nil
-}
-
-func firstDiff(a, b string) int {
-	n := len(a)
-	if len(b) < n {
-		n = len(b)
-	}
-	for i := 0; i < n; i++ {
-		if a[i] != b[i] {
-			return i
-		}
-	}
-	return n
 }
 
 // ---------------------------------------------------------------------------
 // classification
 
-func tokenClasses(s string) []string {
-	var cl []string
-	add := func(ok bool, name string) {
-		if ok {
-			cl = append(cl, name)
-		}
-	}
-	add(strings.ContainsAny(s, "'\"()"), "quote")
-	add(strings.ContainsAny(s, "|;&?\n") || strings.Contains(s, "->") || strings.Contains(s, "=>") || strings.Contains(s, ">>"), "pipe")
-	add(strings.ContainsAny(s, "{}[]"), "brace")
-	add(strings.ContainsAny(s, "$@"), "var")
-	add(strings.Contains(s, "\\"), "escape")
-	add(strings.Contains(s, "#"), "comment")
-	return cl
-}
-
 func classify(c Case) core.Class {
 	text := normalise(c.Text)
-	cl := tokenClasses(text)
+	cl := oracle.TokenClasses(text)
 	out := core.Class{Key: text, NonTrivial: len(cl) >= 2}
 	switch {
 	case len(cl) >= 4:
@@ -185,42 +120,8 @@ func classify(c Case) core.Class {
 // ---------------------------------------------------------------------------
 // known findings
 
-// rxChopMinus / rxChopEquals match the exact damage of the known finding in
-// the SGR-stripped output: the escaped `-` (`=`), the colour reset that lost
-// its final `m`, and the `-` (`=`) written a second time in front of `>`.
-var (
-	rxChopMinus  = regexp.MustCompile("-\x1b\\[[0-9;]*->")
-	rxChopEquals = regexp.MustCompile("=\x1b\\[[0-9;]*=>")
-)
-
-// known: C37-escaped-arrow-chops-escape-sequence. Root cause: the `->`/`=>`
-// branch of parser.Parse removes the last *byte* of the highlighted string,
-// assuming it is the `-`/`=` just written, and writes that character again in
-// the pipe colour; when the character was escaped (`\->`, `\=>`) the last
-// byte is the `m` of the colour reset that follows an escaped character.
-// Matched only when (a) the text has an arrow whose first character directly
-// follows a backslash and (b) undoing exactly that damage (`-ESC[digits->`
-// back to `->`, same for `=`) gives back the text.
-func known(c Case, v *core.Violation) string {
-	if v.Kind != "text-changed" {
-		return ""
-	}
-	text := normalise(c.Text)
-	if !strings.Contains(text, "\\->") && !strings.Contains(text, "\\=>") {
-		return ""
-	}
-	hl, p := highlight(text)
-	if p != nil {
-		return ""
-	}
-	got := rxSGR.ReplaceAllString(hl, "")
-	got = rxChopMinus.ReplaceAllString(got, "->")
-	got = rxChopEquals.ReplaceAllString(got, "=>")
-	if got == text {
-		return "C37-escaped-arrow-chops-escape-sequence"
-	}
-	return ""
-}
+// known: see oracle.Known (C37-escaped-arrow-chops-escape-sequence).
+func known(c Case, v *core.Violation) string { return oracle.Known(c.Text, v.Kind) }
 
 var spec = core.Spec[Case]{
 	ID: "C37", Gen: gen, Check: check, Classify: classify, Known: known,
@@ -231,15 +132,17 @@ func TestProp(t *testing.T)   { core.RunProp(t, spec) }
 func TestReplay(t *testing.T) { core.Replay(t, spec) }
 
 // FuzzHighlight is the native coverage-guided target of the thorough tier.
-// The oracle is the same check; inputs are normalised into the domain.
+// The oracle is the same check; inputs are normalised into the domain. The
+// same target exists in ./fz, a package that does not link harness/core (all
+// of murex) and therefore fuzzes about ten times faster; this copy is what the
+// driver runs as long as it has no per-target package setting.
 func FuzzHighlight(f *testing.F) {
-	for _, s := range []string{"out \\->x", "out \\=>", "out 'a' -> b", "a | b # c", "$(x)->@{y}", ""} {
+	for _, s := range []string{"out \\->x", "out \\=>", "out 'a' -> b", "a | b # c", "$(x)->@{y}"} {
 		f.Add(s)
 	}
 	f.Fuzz(func(t *testing.T, s string) {
-		c := Case{Text: normalise(s)}
-		if v := core.Eval(spec, c, false); v != nil {
-			t.Fatalf("C37 violated: %s", v.Error())
+		if msg := oracle.FuzzOne(s); msg != "" {
+			t.Fatalf("C37 violated: %s", msg)
 		}
 	})
 }
